@@ -599,7 +599,9 @@ func (s *s3) checkAll(i int) {
 		}
 		switch e.Property {
 		case "C01":
-			if !mc.ci.C.Connected() {
+			conn := true
+			e.Sim.Try(func() { conn = mc.ci.C.Connected() })
+			if !conn {
 				e.ViolateK("C01.disconnected", "", "client %s is not connected after transaction %d of a fault-free run\nclient log: %v", mc.spec.Name, i, tail(mc.ci.Log.lines, 8))
 				return
 			}
